@@ -10,6 +10,10 @@ EXPECT_LEN = {
     "LEN vec_unit 2147483649": "err LengthTooLarge",
     "LEN vec_unit 4294967296": "err LengthTooLarge",
     "LEN vec_unit 9223372036854775807": "err LengthTooLarge",
+    "LEN str 2147483647": "ok size=2147483652",
+    "LEN str 2147483648": "err LengthTooLarge",
+    "LEN str 2147483653": "err LengthTooLarge",
+    "LEN str 4294967295": "err LengthTooLarge",
     "LEN arr_unit 2147483648": "err LengthTooLarge",
     "LEN arr_unit 2147483649": "err LengthTooLarge",
     "LEN arr_unit 4294967296": "err LengthTooLarge",
